@@ -181,6 +181,8 @@ where
     }
 
     fn solve(&mut self, timeout: Duration) -> Result<Path<S>, PlanningError> {
+        #[cfg(feature = "verif")]
+        use crate::verif::Instant;
         let pd = self
             .problem_def
             .as_ref()
@@ -302,5 +304,16 @@ where
                 return Ok(self.reconstruct_path(self.tree.len() - 1));
             }
         }
+    }
+}
+
+#[cfg(feature = "verif")]
+impl<S: State + Clone, SP: StateSpace<StateType = S>, G: Goal<S>> RRTStar<S, SP, G> {
+    /// Read-only snapshot of the search tree: (state, parent index, recorded cost).
+    pub fn verif_tree(&self) -> Vec<(S, Option<usize>, f64)> {
+        self.tree
+            .iter()
+            .map(|n| (n.state.clone(), n.parent_index, n.cost))
+            .collect()
     }
 }
